@@ -795,7 +795,15 @@ impl PaZipCompressor {
         let remaining = &input[pos..];
         let max_length = remaining.len().min(256); // PA-Zip max pattern length
         
-        self.dictionary.find_longest_match(remaining, 0, max_length)
+        let candidate = self.dictionary.find_longest_match(remaining, 0, max_length)?;
+        // The Global token carries a 16-bit dictionary offset and a 16-bit length: only keep what it can represent.
+        Ok(candidate.and_then(|mut m| {
+            if m.dict_position > u16::MAX as usize {
+                return None;
+            }
+            m.length = m.length.min(u16::MAX as usize);
+            Some(m)
+        }))
     }
     
     /// Step 3: Calculate costs for each possible compression strategy
